@@ -90,6 +90,20 @@ GEN_SPEC = [
         ('waveform_samples', 'n', 'Z'), ('len(segment_a)', 'lsa', 'Z'), ('len(segment_b)', 'lsb', 'Z'),
         ('len(t)', 'lt', 'Z'), ('segment_idx', 'si', 'Z'), ('previous_segment_count', 'pc', 'Z')], 4),
 ]
+GEN_SPEC += [
+    ('TaborProgram.__init__', [
+        ('len(channels)', 'nchan', 'Z'), ('len(markers)', 'nmark', 'Z'), ("device_properties['chan_per_part']", 'cpp', 'Z'),
+        ('program.repetition_count', 'r', 'Z'), ('program.volatile_repetition is not None', 'vol', 'bool'),
+        ('program.depth()', 'd', 'Z'), ('mode is None', 'mode_none', 'bool'),
+        ('mode in (TaborSequencing.ADVANCED, TaborSequencing.SINGLE)', 'mode_valid', 'bool'),
+        ('mode == TaborSequencing.SINGLE', 'mode_single', 'bool')], 7),
+    ('TaborProgram.setup_single_sequence_mode', [
+        ('self.program.depth()', 'd', 'Z'), ('self.program.is_balanced()', 'bal', 'bool'),
+        ('max_seq_len is not None', 'mx_given', 'bool'), ('len(self.program)', 'ln', 'Z'), ('max_seq_len', 'mx', 'Z')], 3),
+    ('TaborProgram.setup_advanced_sequence_mode', [
+        ('self.program.depth()', 'd', 'Z'), ('self.program.repetition_count', 'r', 'Z'),
+        ('len(sequence_table)', 'ln', 'Z'), ('min_seq_len', 'mn', 'Z'), ('max_seq_len', 'mx', 'Z')], 4),
+]
 
 
 def pregen(ctx):
@@ -97,7 +111,7 @@ def pregen(ctx):
     sys.path.insert(0, os.path.join(vlib.VERIF, 'translate'))
     import py2gallina_c16
     src = os.path.join(vlib.REPO, 'qupulse/_program/tabor.py')
-    ob = 'translate:qupulse/_program/tabor.py::decisions(_check_merge_with_next,_check_partial_unroll,prepare_program_for_advanced_sequence_mode,_calc_sampled_segments)'
+    ob = 'translate:qupulse/_program/tabor.py::decisions(_check_merge_with_next,_check_partial_unroll,prepare_program_for_advanced_sequence_mode,_calc_sampled_segments,__init__,setup_single_sequence_mode,setup_advanced_sequence_mode)'
     try:
         vlib.write_if_changed(GEN_FILE, py2gallina_c16.translate_decisions(src, GEN_SPEC) + '\n')
         return [{'name': ob, 'ok': True, 'detail': 'translated (%d tests)' % sum(n for _, _, n in GEN_SPEC)}]
@@ -727,7 +741,8 @@ def _run_impl(case):
         tree = read_back(prog, wid, {})
         if flatten_tree(tree) != flatten_tree(case['tree']):
             first_changed = 'a first TaborProgram(...) on the same Loop changed the sequence of waveforms the Loop plays'
-    used = frozenset(set(chans) | set(marks)) - {None}
+    # from the full configuration (a wrong tuple length cuts chans / marks; TaborProgram rejects those before it looks)
+    used = frozenset(nm(k) for k in cfg['channels'] + cfg['markers']) - {None}
     # equality classes of the waveforms as the compiler sees them (input of the model)
     classes = {}
     cls = []
@@ -1110,8 +1125,9 @@ MANIFEST = {
                   'raised; left_behind) is in the input domain again and plays the same leaves, so an accepted second '
                   'compilation with any configuration plays the ORIGINAL specification (C16_recompile_plays_any); the '
                   'executable model of the in-place effect (tree_after) is compared with the real Loop object.  '
-                  'Source tie: the 22 if / elif / while / assert tests of _check_merge_with_next, '
-                  '_check_partial_unroll, prepare_program_for_advanced_sequence_mode and _calc_sampled_segments are '
+                  'Source tie: the 36 if / elif / while / assert tests of _check_merge_with_next, '
+                  '_check_partial_unroll, prepare_program_for_advanced_sequence_mode, _calc_sampled_segments, '
+                  'TaborProgram.__init__ and setup_single / setup_advanced_sequence_mode are '
                   'translated from the current source on every run (translate/py2gallina_c16.py, fail-closed) and the '
                   'model functions are proved equal to skeletons that take all their decisions from the translated '
                   'tests (C16_source_*).  C16_spec_cached_eq: the '
